@@ -116,6 +116,12 @@ class NaiveForecaster(_OptionalForecastingHorizonMixin, _BaseWindowForecaster):
             #  if not given, set default window length for the mean strategy
             if self.window_length is None:
                 self.window_length_ = len(y)
+                if self.sp_ != 1 and self.window_length_ < self.sp_:
+                    # same rule as for an explicit window_length: with less
+                    # than one season some seasons would forecast nan
+                    raise ValueError(
+                        f"The training series is shorter than `sp`: {self.sp_}."
+                    )
 
         elif self.strategy == "drift":
             if self.sp != 1:
